@@ -175,6 +175,14 @@ func VerifC14Merge(field, mode int) {
 	err2 := Unmarshal(j2, &v)
 	vrt.Observe("err2nil", err2 == nil)
 	vrt.Cover("second-unmarshal")
+	// The law is conditional ("whenever it succeeds"). Two of the texts are legitimately
+	// refused under default options: a JSON array shorter than the Go array, and a JSON string
+	// into an interface that currently holds a map. Everything else must be accepted.
+	mayFail := (field == 4 && mode == 2) || (field == 5 && mode == 2)
+	if err2 != nil && mayFail {
+		vrt.Cover("second-refused")
+		return
+	}
 	vrt.Assert("C14/j2-accepted", err2 == nil)
 	if iReplaced {
 		s, ok := v.I.(string)
